@@ -397,6 +397,16 @@ func checkC06(p *Program, r *Report) {
 		}
 	}
 
+	c06Trace(r, ws, rs)
+
+	// ---- fallback signalling -----------------------------------------------------------------------
+	c06Fallback(p, r)
+	// the LZ4 payload path must be able to decompress whatever it compressed (shared with C08)
+	c08Rules(p, r)
+}
+
+// c06Trace: both sides' byte traces follow the v5 framing, for codecs with and without compressor.
+func c06Trace(r *Report, ws []*segWritten, rs []*segRead) {
 	// ---- trace agreement ---------------------------------------------------------------------------
 	r.Floor("trace", 2)
 	for _, comp := range []bool{false, true} {
@@ -429,8 +439,6 @@ func checkC06(p *Program, r *Report) {
 		}
 	}
 
-	// ---- fallback signalling -----------------------------------------------------------------------
-	c06Fallback(p, r)
 }
 
 func payloadRoot(s string) string {
